@@ -3,7 +3,7 @@
 # properties anchored in the files they touch.  Expected: silent, or `p` (translation / proof only, no failing input);
 # a `C` (concrete replay) on a behaviour-preserving change would be a false alarm of the correspondence leg.
 HERE="$(cd "$(dirname "$0")/.." && pwd)"
-SRC="$1"
+SRC="$(cd "$1" && pwd)"
 WT="${VERIF_WT:-/tmp/verif-refac-wt-$$}"
 git -C /repo worktree add -q --detach $WT HEAD || exit 2
 for d in "$SRC"/*/; do
